@@ -13,6 +13,10 @@ SK = {
 }
 
 
+for _i in range(1, 9):
+    SK["K%d" % _i] = hashlib.sha256(b"nrmc-key-%d" % _i).hexdigest()
+
+
 @functools.lru_cache(None)
 def pubkey(name):
     return PrivateKey(bytes.fromhex(SK[name])).public_key_xonly.format().hex()
